@@ -70,8 +70,8 @@ def amplitude_normalise(X, thresh=1e-10, clip=False, interp_method='pchip',
                                                                                           thresh,
                                                                                           max_iters))
 
-    # Don't normalise in place
-    X = X.copy()
+    # Don't normalise in place, integer input must not truncate the ratios
+    X = np.array(X, dtype=float)
 
     orig_dim = X.ndim
     if X.ndim == 2:
